@@ -45,6 +45,14 @@ def schema_model():
     m.add_class("Proto", {"services": "Map[Str,Service]", "all_messages": "Map[Str,MessageType]", "all_enums": "Map[Str,EnumType]",
                           "file_pb2": "Opaque", "file_to_generate": "Bool", "meta": "Metadata",
                           "_fields": ["file_pb2", "services", "all_messages", "all_enums", "file_to_generate", "meta"]})
+    from vf.model import Native
+    from google.cloud import extended_operations_pb2 as ex_ops_pb2
+    m.globals["ex_ops_pb2"] = pyv(Native(ex_ops_pb2))
+    m.extensions["google.cloud.operation_service"] = "Str"
+    m.classes["Method"]["options"] = "MethodOptions"
+    m.classes["MessageType"]["is_extended_operation"] = "Bool"
+    m.classes["API"].update({"naming": "Naming", "get_custom_operation_service": "method", "get_extended_operations_services": "method"})
+    m.add_spec("op_service_name", ["api", "meth"], "api.naming.proto_package + '.' + meth.options.Extensions[ex_ops_pb2.operation_service]")
     m.globals["utils.make_private"] = pyv(__import__("vf.model", fromlist=["FuncV"]).FuncV("contract", "make_private"))
     m.specs["succ"] = lambda ex, args, st: V(succ(args[0].term, args[1].term), BOOL)
     m.specs["reach"] = lambda ex, args, st: V(reach(args[0].term, args[1].term), BOOL)
@@ -183,6 +191,22 @@ def contracts(m):
     cs.append(Contract("Service.operation_polling_method", source=(W, "Service.operation_polling_method"), params={"self": "Service"}, result="Opt[Method]",
                        ensures=["(result is None) == (not exists(lambda x: x.is_operation_polling_method, self.methods.values()))",
                                 "implies(result is not None, result.is_operation_polling_method and exists(lambda x: x is result, self.methods.values()))"]))
+    # which operation service an extended-operation rpc polls: `<proto package>.<operation_service annotation>`, an existing service with a polling method
+    # (ValueError otherwise); a service uses exactly the operation services of its annotated rpcs
+    A_ = "gapic/schema/api.py"
+    bad = ("not {x}.output.is_extended_operation or op_service_name(self, {x}) not in self.services or "
+           "self.services[op_service_name(self, {x})].operation_polling_method is None")
+    cs.append(Contract("Method.operation_service", source=(W, "Method.operation_service"), params={"self": "Method"}, result="Str",
+                       ensures=["result == self.options.Extensions[ex_ops_pb2.operation_service]"]))
+    cs.append(Contract("API.get_custom_operation_service", source=(A_, "API.get_custom_operation_service"), params={"self": "API", "method": "Method"}, result="Service",
+                       ensures=["result is self.services[op_service_name(self, method)]", "result.operation_polling_method is not None", "method.output.is_extended_operation"],
+                       raises={"ValueError": bad.format(x="method")}))
+    cs.append(Contract("API.get_extended_operations_services", source=(A_, "API.get_extended_operations_services"), params={"self": "API", "service": "Service"},
+                       result="Set[Service]",
+                       ensures=["forall(lambda x: implies(x.operation_service != '', self.services[op_service_name(self, x)] in result), service.methods.values())",
+                                "forall(lambda s: implies(s in result, exists(lambda x: x.operation_service != '' and s is self.services[op_service_name(self, x)], "
+                                "service.methods.values())), Service)"],
+                       raises={"ValueError": "exists(lambda x: x.operation_service != '' and (" + bad.format(x="x") + "), service.methods.values())"}))
     # ---- internal mode ------------------------------------------------------------------------------------------------------
     cs.append(Contract("Method.with_internal_methods", source=(W, "Method.with_internal_methods"),
                        params={"self": "Method", "public_methods": "Set[Str]"}, result="Method",
